@@ -20,7 +20,12 @@ RULE = ('programs = sequences of add_arrow/add_arrows/add_from_networkx on Direc
         'and in reversed order / shuffled one-by-one add_arrow calls / add_from_networkx with a random node permutation '
         '[quick: 1500 sampled each + every graph on which the Coq model of the shipped moralisation loop loses a set in the '
         'lexicographic pass; thorough: all]; (2) random programs on 2..8 nodes mixing the three calls, with deliberately '
-        'cycle-creating arrows (reversed existing arrow, self-loop, closing a directed path), cyclic / exposure-less networks. '
+        'cycle-creating arrows (reversed existing arrow, self-loop, closing a directed path), cyclic / exposure-less networks; '
+        '(3) structured family on 6, 7, 8 nodes: templates containing a collider with descendants (M + child, butterfly + child, '
+        'M + grandchild, M + two children, two colliders sharing parents, collider chains, double M + child) x every/random assignment of '
+        'roles to nodes x random extra arrows (p = 0, 0.1, 0.25 along a random linear extension) x call style; (4) dense random DAGs on '
+        '6-8 nodes (arrow probability 0.3-0.5 along a random topological order).  Coverage is MEASURED with the Coq model: a case '
+        'exercises a step of the algorithm iff ablating that step in the model changes the answer for some candidate set. '
         'non-trivial = accepted DAG on which the specification admits some but not all candidate sets')
 TRUSTED = ['networkx: is_directed_acyclic_graph / descendants / ancestors / has_path / DiGraph insertion order and copy() '
            '(modelled by Model.Dag; descendants, ancestors, undirected reachability and acyclicity validated against the model on every case)',
@@ -30,6 +35,7 @@ LABELS = ['X', 'Y', 'A', 'B', 'C', 'D', 'E', 'F', 'G', 'H']
 IDX = {l: i for i, l in enumerate(LABELS)}
 FREE5 = [(0, 2), (0, 3), (0, 4), (1, 2), (1, 3), (1, 4), (2, 3), (2, 4), (3, 4)]
 SITE = 'DirectedAcyclicGraph'
+ABLATIONS = ['descendant-test', 'ancestors-of-adjustment-set', 'ancestral-restriction', 'moralisation']
 
 
 # ---------------------------------------------------------------------------------------- programs
@@ -173,6 +179,15 @@ def compare(ctx, cases, impl, res, fails):
         sel = lambda m: [cands[i] for i in unmask(m)]   # noqa: E731
         m_alg, m_spec, m_old, m_path, m_min, m_min_impl = [sel(m) for m in masks[:6]]
         m_min_impl_len = masks[6]
+        cov = ctx.extra.setdefault('cases_exercising_each_step', {})
+        fam = kind.split('-')[0]
+        for name, m in zip(ABLATIONS, masks[7:11]):
+            if m != masks[0]:
+                ctx.count('exercises:' + name)
+                cov.setdefault(fam, {}).setdefault(name, 0)
+                cov[fam][name] += 1
+                if name == 'ancestors-of-adjustment-set' and m & ~masks[0]:
+                    ctx.count('collider-off-the-ancestors-of-X-Y-with-proper-descendant-in-Z(ablation would list an inadmissible set)')
         m_desc, m_anc, m_ureach = [[unmask(m) for m in l] for l in (m_desc, m_anc, m_ureach)]
         nn, ne = len(r['nodes']), len(r['edges'])
         size = (nn, ne, sum(o[0] == 'nx' for o in prog), len(prog), sum(len(o[1]) if o[0] == 'arrows' else 1 for o in prog))
@@ -352,6 +367,100 @@ def random_part(ctx, fails):
     check_cases(ctx, cases, fails, 'c18rnd', shard=20)
 
 
+# templates: arrows over role names; X -> Y is always present.  Every template has a collider with descendants
+TEMPLATES = {
+    6: {'M+child': 'aX ac dc dY ce',
+        'butterfly+child': 'aX ac dc dY cX cY ce',
+        'two-colliders': 'aX ac dc dY ae de',
+        'M+child-into-Y-parent': 'aX ac dc dY ce de',
+        'collider-then-chain': 'aX ac dc de eY'},
+    7: {'M+grandchild': 'aX ac dc dY ce ef',
+        'M+two-children': 'aX ac dc dY ce cf',
+        'collider-chain-into-child-of-Y': 'aX ac bc bd Yd ce',
+        'M+child+confounder': 'aX ac dc dY ce fX fY'},
+    8: {'double-M+child': 'aX ac bc bd fd fY ce',
+        'M+child+grandchild+confounder': 'aX ac bc bY ce ef gX gY',
+        'M+child+two-confounders': 'aX ac dc dY ce fX fY bX bY'},
+}
+
+
+def styled(rng, n, es, style=None):
+    es = es[:]
+    rng.shuffle(es)
+    style = style or rng.choice(['arrows', 'arrow', 'nx', 'arrows2'])
+    if style == 'arrows':
+        return [('arrows', es)]
+    if style == 'arrow':
+        return [('arrow', u, v) for u, v in es]
+    if style == 'arrows2':
+        k = rng.randint(0, len(es))
+        return [('arrows', es[:k]), ('arrows', es[k:])]
+    ns = list(range(n))
+    rng.shuffle(ns)
+    return [('nx', ns, [(0, 1)] + es if rng.random() < 0.5 else es + [(0, 1)])]
+
+
+def template_program(rng, n, name, perm=None, p_extra=0.0):
+    roles = sorted(set(TEMPLATES[n][name].replace(' ', '')) - {'X', 'Y'})
+    others = list(range(2, n))
+    if perm is None:
+        perm = others[:]
+        rng.shuffle(perm)
+    node = dict(zip(roles, perm))
+    node.update(X=0, Y=1)
+    es = [(node[t[0]], node[t[1]]) for t in TEMPLATES[n][name].split()]
+    if p_extra:
+        # random linear extension of template + X->Y, extra arrows follow it
+        base = es + [(0, 1)]
+        order, left = [], set(range(n))
+        while left:
+            free = [v for v in left if not any(b == v and a in left for a, b in base)]
+            v = rng.choice(sorted(free))
+            order.append(v)
+            left.discard(v)
+        rank = {v: i for i, v in enumerate(order)}
+        have = set(base)
+        for u in range(n):
+            for v in range(n):
+                if rank[u] < rank[v] and (u, v) not in have and rng.random() < p_extra:
+                    es.append((u, v))
+    return styled(rng, n, es)
+
+
+def structured_part(ctx, fails):
+    rng = ctx.rng
+    cases = []
+    reps = {6: (2, 10), 7: (1, 12), 8: (1, 5)} if ctx.quick else {6: (12, 80), 7: (6, 100), 8: (4, 50)}
+    for n, tpls in TEMPLATES.items():
+        pure, crossed = reps[n]
+        for name in tpls:
+            perms = list(itertools.permutations(range(2, n))) if n == 6 else [None] * 24
+            for perm in perms:                      # the bare template under every (6 nodes) / 24 random role assignments
+                for _ in range(pure):
+                    cases.append(('template-%d-%s' % (n, name), template_program(rng, n, name, perm and list(perm))))
+            for _ in range(crossed):                # crossed with random extra arrows
+                for p in (0.1, 0.25):
+                    cases.append(('template-%d-%s' % (n, name), template_program(rng, n, name, None, p)))
+    check_cases(ctx, cases, fails, 'c18tpl', shard=25, chunk=1500)
+
+
+def dense_part(ctx, fails):
+    rng = ctx.rng
+    cases = []
+    for n, k in ((6, 160), (7, 90), (8, 40)) if ctx.quick else ((6, 2500), (7, 1500), (8, 600)):
+        for _ in range(k):
+            order = list(range(n))
+            rng.shuffle(order)
+            if order.index(0) > order.index(1):     # keep X before Y so that X -> Y is compatible
+                i, j = order.index(0), order.index(1)
+                order[i], order[j] = order[j], order[i]
+            p = rng.choice([0.3, 0.4, 0.5])
+            es = [(order[i], order[j]) for i in range(n) for j in range(i + 1, n)
+                  if (order[i], order[j]) != (0, 1) and rng.random() < p]
+            cases.append(('dense-%d' % n, styled(rng, n, es)))
+    check_cases(ctx, cases, fails, 'c18dns', shard=20, chunk=1500)
+
+
 def report(ctx, fails):
     fails.sort(key=lambda f: f[0])
     seen = set()
@@ -365,6 +474,8 @@ def report(ctx, fails):
 
 def run(ctx):
     fails = []
+    structured_part(ctx, fails)
+    dense_part(ctx, fails)
     exhaustive_part(ctx, fails)
     random_part(ctx, fails)
     report(ctx, fails)
@@ -378,6 +489,8 @@ def replay(ctx, payload):
                 ('nx', list(o[1]), [tuple(p) for p in o[2]]) for o in payload['prog']]
         check_cases(ctx, [(payload.get('kind', 'replay'), prog)], fails, 'c18replay', shard=1)
     else:
+        structured_part(ctx, fails)
+        dense_part(ctx, fails)
         exhaustive_part(ctx, fails)
         random_part(ctx, fails)
     report(ctx, fails)
